@@ -41,6 +41,11 @@ void bn_lcm(bn_t c, const bn_t a, const bn_t b) {
 	bn_null(u);
 	bn_null(v);
 
+	if (bn_is_zero(a) || bn_is_zero(b)) {
+		bn_zero(c);
+		return;
+	}
+
 	RLC_TRY {
 		bn_new(u);
 		bn_new(v);
